@@ -29,6 +29,10 @@ theorem broadcast_count_eq : broadcast_count = 3 := by
 /-- announcements are 225 ms apart -/
 theorem registerTime_eq : registerTime = 225 := by decide
 
+/-- an info's registry key is its lower-cased name, at construction and after every rename (`ServiceInfo.__init__`, the `name` setter) -/
+theorem info_key_follows_name : src_info_ctor_key = "name.lower()" ∧ src_info_name_setter_key = "name.lower()" := by
+  decide
+
 /-- a cache entry conflicts iff it is an unexpired PTR whose alias is the name -/
 theorem cache_conflict_iff (t : Int) (e a : Bool) : cache_conflict t e a = true ↔ t = 12 ∧ e = false ∧ a = true := by
   simp [cache_conflict, and_assoc]
